@@ -72,6 +72,7 @@ def check_orientation(run, A):
     subs = [x for x in walk_terms(inner) if x.op == 'binop' and x.args[0] == 'Sub']
     layout = None            # 'mr': [estimate, reference] before the transposes; 'rm': [reference, estimate]
     sum_last = False
+    sum_axis = None
     if subs:
         a, b = strip_views(subs[0].args[1]), strip_views(subs[0].args[2])
 
@@ -97,7 +98,8 @@ def check_orientation(run, A):
             # estimate expanded at axis 1 (estimate index first), reference at axis 0 -> [estimate, reference]; one transpose -> [reference, estimate]
             layout = 'mr' if (pm, pr) == (1, 0) else 'rm' if (pm, pr) == (0, 1) else None
         sm = [x for x in walk_terms(inner) if is_call_to(x, 'numpy.sum')]
-        sum_last = len(sm) == 1 and const_val(call_arg(sm[0], None, 'axis')) == -1
+        sum_axis = const_val(call_arg(sm[0], None, 'axis')) if len(sm) == 1 else None
+        sum_last = isinstance(sum_axis, int) and not isinstance(sum_axis, bool)          # (which axis: judged below)
     # a transposition deeper inside the expression is not followed
     deeper = any(reorder_of(x) is not None for x in walk_terms(inner) if x.op in ('call', 'attr'))
     recognised = layout is not None and sum_last and len(subs) == 1 and not deeper and ('unknown',) not in reorders
@@ -139,7 +141,7 @@ def check_orientation(run, A):
     ok = False
     got = []
     if recognised:
-        ok = neg
+        ok = neg and sum_axis == -1
         # the score of K x K classes (no independent axis) and of one independent axis, as the aligners pass it
         for nb in (0, 1):
             labels = (['estimate', 'reference'] if layout == 'mr' else ['reference', 'estimate']) + [f'independent{i}' for i in range(nb)]
@@ -173,7 +175,8 @@ def check_orientation(run, A):
     else:
         run.check(ok, 'ORIENT', '_ScoreMatrix.euclidean: negative distance, rows = reference after the transpose', fn.loc(), '',
                   f'the score comes out with axes {" / ".join("[" + ", ".join(g_) + "]" for g_ in got)} (without / with one independent axis)'
-                  f'{"" if neg else ", and not negated"}: it must be the NEGATIVE distance laid out [independent..., reference, estimate]', construct=f'ORIENT::{q}::layout')
+                  f'{"" if neg else ", and not negated"}{"" if not recognised or sum_axis == -1 else f", and the squared differences are summed over axis {sum_axis} instead of the time axis -1"}'
+                  f': it must be the NEGATIVE distance over time laid out [independent..., reference, estimate]', construct=f'ORIENT::{q}::layout')
     # oracle passes (mask, reference_mask)
     q = P + 'OraclePermutationAlignment.calculate_mapping'
     fn = A.prog.func(q)
